@@ -73,8 +73,11 @@ def decide(pid, spec, tier, seed, obligations, broken, res, wall, log):
     ev = dict(property_id=pid, tier=tier, seed=seed, level="proof", coverage=cov,
               assumptions=spec.get("assumptions", []), wall_s=round(wall, 2),
               violations=len(new_fail) + (1 if (broken and not new_fail) else 0))
-    os.makedirs(os.path.join(VERIF, "evidence"), exist_ok=True)
-    json.dump(ev, open(os.path.join(VERIF, "evidence", pid + ".json"), "w"), indent=1, default=str)
+    # VERIF_EVIDENCE_DIR (developer aid): tools/mutcheck.sh / reseed.sh run the checks against a tree with a seeded change applied
+    # and must not overwrite the evidence of the unchanged tree; the registered commands never set it
+    evdir = os.environ.get("VERIF_EVIDENCE_DIR") or os.path.join(VERIF, "evidence")
+    os.makedirs(evdir, exist_ok=True)
+    json.dump(ev, open(os.path.join(evdir, pid + ".json"), "w"), indent=1, default=str)
     if violation:
         tail = "" if new_fail else " no-failing-input-found"
         if broken:
